@@ -118,6 +118,27 @@ Fixpoint p_find (f : sx -> res sx) (ls : sx) : res sx :=
   | _ => Ok (Bool false)          (* find-tail: (and (pair? ls) ...) *)
   end.
 
+(** lib/init-7.scm:98-105 (every pred ls) with one list: (if (pair? ls) (every1 pred ls) #t);
+    every1: (if (null? (cdr ls)) (pred (car ls)) (if (pred (car ls)) (every1 pred (cdr ls)) #f)) -- the LAST value is returned *)
+Fixpoint p_every1 (f : sx -> res sx) (a d : sx) : res sx :=
+  match d with
+  | Nil => f a
+  | Pair a' d' => bind (f a) (fun t => if truthy t then p_every1 f a' d' else Ok (Bool false))
+  | _ => bind (f a) (fun t => if truthy t then Err (TypeError "cdr") else Ok (Bool false))
+  end.
+Definition p_every (f : sx -> res sx) (ls : sx) : res sx :=
+  match ls with Pair a d => p_every1 f a d | _ => Ok (Bool true) end.
+
+(** lib/init-7.scm:86-96 (any pred ls) with one list: (if (pair? ls) (any1 pred ls) #f);
+    any1: (if (pair? (cdr ls)) ((lambda (x) (if x x (any1 pred (cdr ls)))) (pred (car ls))) (pred (car ls))) *)
+Fixpoint p_any1 (f : sx -> res sx) (a d : sx) : res sx :=
+  match d with
+  | Pair a' d' => bind (f a) (fun t => if truthy t then Ok t else p_any1 f a' d')
+  | _ => f a
+  end.
+Definition p_any (f : sx -> res sx) (ls : sx) : res sx :=
+  match ls with Pair a d => p_any1 f a d | _ => Ok (Bool false) end.
+
 Fixpoint p_filter (f : sx -> res sx) (ls : sx) : res sx :=
   match ls with
   | Nil => Ok Nil
@@ -174,8 +195,9 @@ Definition p_length (v : sx) : res sx :=
   match sx_length v with Some n => Ok (Num n) | None => Err (TypeError "length: not a list") end.
 
 (** (identifier->symbol x): a symbol is itself; syntactic closures (C07) are not S-expression data here *)
-Definition p_identifier_to_symbol (v : sx) : res sx :=
-  match v with Sym s => Ok (Sym s) | _ => Err (TypeError "identifier->symbol") end.
+(** identifier->symbol is sexp_strip_synclos (opcodes.c:164, eval.c:660): it removes syntactic closures anywhere in the datum; a value of
+    this model contains none, so it is the identity (a pair comes back as an equal copy: identity of pairs is unknown to the model anyway) *)
+Definition p_identifier_to_symbol (v : sx) : res sx := Ok v.
 
 (** (error msg irritant ...) *)
 Definition p_error (msg : sx) (irritants : list sx) : res sx :=
